@@ -68,16 +68,6 @@ Record env := mkEnv {
   uuid : nat -> bytes;        (* the k-th UUID drawn from the random generator *)
   cache : bytes -> option cachefile   (* cache directory: file for md5(url), if any *) }.
 
-Definition objkind_eqb (a b : objkind) : bool :=
-  match a, b with KDoc, KDoc | KScxml, KScxml | KInvoke, KInvoke | KTrieNode, KTrieNode => true | _, _ => false end.
-Fixpoint path_eqb (a b : list nat) : bool :=
-  match a, b with
-  | [], [] => true
-  | x :: a', y :: b' => Nat.eqb x y && path_eqb a' b'
-  | _, _ => false
-  end.
-Definition obj_eqb (a b : obj) : bool := objkind_eqb (fst a) (fst b) && path_eqb (snd a) (snd b).
-
 (* the layout is injective on the objects of interest *)
 Definition addr_injective_on (e : env) (os : list obj) : Prop :=
   forall a b, In a os -> In b os -> addr e a = addr e b -> a = b.
